@@ -21,7 +21,7 @@ RTOL = 1e-7
 
 def bounds(tier):
     q = tier == 'quick'
-    return {'lattice': 'ZR(1)^N N=%s, ZC5^N N=%s' % ('5' if q else '5,6', '3' if q else '3,4'), 'families_N': [16] if q else [16, 17, 24],
+    return {'lattice': 'ZR(1)^N N=%s, ZC5^N N=%s' % ('5' if q else '5,6,7', '3' if q else '3,4,5'), 'families_N': [16] if q else [16, 17, 24, 33],
             'scalars_real': A.SCAL_R[:3] if q else A.SCAL_R, 'scalars_complex': [str(c) for c in (A.SCAL_C[:2] if q else A.SCAL_C)],
             'probes': len(PROBES)}
 
@@ -192,26 +192,26 @@ CONFIGS = {
     'speriodogram': [dict(NFFT=None), dict(NFFT=33)],
     'CORRELOGRAMPSD': [dict(lag=3, NFFT=16), dict(lag=2, NFFT=9)],
     'CORRELATION': [dict(lag=3)],
-    'arburg': [dict(order=1), dict(order=2), dict(order=3)],
+    'arburg': [dict(order=1), dict(order=2), dict(order=3), dict(order=6)],
     'arburg_criteria': [dict(order=8)],
-    'aryule': [dict(order=1), dict(order=2), dict(order=3)],
-    'arcovar': [dict(order=1), dict(order=2)],
-    'arcovar_marple': [dict(order=1), dict(order=2)],
-    'modcovar': [dict(order=1), dict(order=2)],
-    'modcovar_marple': [dict(order=1), dict(order=2)],
+    'aryule': [dict(order=1), dict(order=2), dict(order=3), dict(order=6)],
+    'arcovar': [dict(order=1), dict(order=2), dict(order=5)],
+    'arcovar_marple': [dict(order=1), dict(order=2), dict(order=5)],
+    'modcovar': [dict(order=1), dict(order=2), dict(order=5)],
+    'modcovar_marple': [dict(order=1), dict(order=2), dict(order=5)],
     'arma_estimate': [dict(P=2, Q=2, lag=8), dict(P=5, Q=2, lag=8)],
-    'ma': [dict(Q=2, M=6)],
-    'minvar': [dict(order=2, NFFT=8), dict(order=3, NFFT=9)],
+    'ma': [dict(Q=2, M=6), dict(Q=3, M=9)],
+    'minvar': [dict(order=2, NFFT=8), dict(order=3, NFFT=9), dict(order=5, NFFT=16)],
     'music': [dict(IP=2, NSIG=1, NFFT=8), dict(IP=4, NSIG=None, threshold=None, criteria='aic', NFFT=16), dict(IP=4, NSIG=None, criteria='mdl', NFFT=16),
               dict(IP=4, NSIG=None, threshold=2.0, NFFT=16)],
     'ev': [dict(IP=2, NSIG=1, NFFT=8), dict(IP=4, NSIG=None, criteria='aic', NFFT=16), dict(IP=4, NSIG=None, threshold=2.0, NFFT=16)],
     'pmtm': [dict(NW=2.5, NFFT=32, method='adapt'), dict(NW=2, NFFT=33, method='eigen'), dict(NW=2.5, k=3, NFFT=32, method='unity')],
     'class:Periodogram': [dict(NFFT=None)],
     'class:pcorrelogram': [dict(lag=3, NFFT=16)],
-    'class:pburg': [dict(order=2, NFFT=16)],
-    'class:pyule': [dict(order=2, NFFT=16)],
-    'class:pcovar': [dict(order=2, NFFT=16)],
-    'class:pmodcovar': [dict(order=2, NFFT=16)],
+    'class:pburg': [dict(order=2, NFFT=16), dict(order=4, NFFT=17)],
+    'class:pyule': [dict(order=2, NFFT=16), dict(order=4, NFFT=17)],
+    'class:pcovar': [dict(order=2, NFFT=16), dict(order=4, NFFT=17)],
+    'class:pmodcovar': [dict(order=2, NFFT=16), dict(order=4, NFFT=17)],
     'class:parma': [dict(P=2, Q=2, lag=8, NFFT=16)],
     'class:pma': [dict(Q=2, M=6, NFFT=16)],
     'class:pminvar': [dict(order=3, NFFT=16)],
@@ -287,11 +287,11 @@ def admissible(name, o, x, minlen=16):
 def datasets(tier):
     q = tier == 'quick'
     out = []
-    for n in ([5] if q else [5, 6]):
+    for n in ([5] if q else [5, 6, 7]):
         out.append(('ZR1', n))
-    for n in ([3] if q else [3, 4]):
+    for n in ([3] if q else [3, 4, 5]):
         out.append(('ZC5', n))
-    for N in ([16] if q else [16, 17, 24]):
+    for N in ([16] if q else [16, 17, 24, 33]):
         out.append(('GENR', N))
         out.append(('GENC', N))
     return out
